@@ -108,6 +108,53 @@ class C06Sim(calsim.CalSim):
                         f"(old {old_state['n_sampled_params'] if old_state else None}, new {new_state['n_sampled_params']})")
         res.stats["crash-states"] += n_states
         self.n_states = n_states
+        # ---- ioerror@save: an OSError out of every operation of a live save; the process survives
+        from sim.diskcrash import FaultySave, Injector
+        materialise(old_files, F) if old_files else (shutil.rmtree(F, ignore_errors=True))
+        dry = Injector(None)
+        with FaultySave(F, dry):
+            cal.create_checkpoint(F)
+        if not deep_diff(state_of(F, self.model), new_state) == []:
+            raise RuntimeError("fault-point proxies change the result of a fault-free save")
+        for k, label in enumerate(dry.labels):
+            if old_files:
+                materialise(old_files, F)
+            else:
+                shutil.rmtree(F, ignore_errors=True)
+            inj = Injector(k)
+            raised = None
+            try:
+                with FaultySave(F, inj):
+                    cal.create_checkpoint(F)
+            except OSError as e:
+                raised = e
+            except Exception as e:  # noqa: BLE001
+                raised = e
+            res.stats["ioerror@save"] += 1
+            point = label.split(":")[0] + ":" + label.split(":")[1]
+            try:
+                got = state_of(F, self.model)
+            except BaseException as e:  # noqa: BLE001
+                if isinstance(e, (KeyboardInterrupt, SystemExit)):
+                    raise
+                self.outcomes[("error", "live:" + point, "ioerror")] = 1
+                res.stats["ioerror-state:error"] += 1
+                continue
+            if not deep_diff(got, new_state):
+                cls = "new"
+            elif old_state is not None and not deep_diff(got, old_state):
+                cls = "old"
+            else:
+                cls = "hybrid"
+            self.outcomes[(cls, "live:" + point, "ioerror")] = 1
+            res.stats[f"ioerror-state:{cls}"] += 1
+            if cls == "hybrid":
+                res.add("hybrid-restore-after-error", f"json-backend:{point}",
+                        f"OSError injected at fault point {k} ({label}) of a live save (previous folder '{scn['prestate']}', the save "
+                        f"{'raised ' + type(raised).__name__ if raised else 'returned normally'}): a later restore succeeds with a state that is neither the "
+                        f"previous nor the new checkpoint; vs new: {deep_diff(got, new_state)[:2]}; vs previous: "
+                        f"{deep_diff(got, old_state)[:2] if old_state is not None else '(none)'}")
+        self.fault_points = list(dry.labels)
         self.files_order = [o[1] for o in ops if o[0] == "trunc"] + [n for n in rec.opened if n == "series_samp.h5"]
 
 
@@ -132,6 +179,14 @@ class C06Sqlite(calsim.CalSim):
         old_args = sqlite_args(cal, None)[1:]
         cal.calibrate(scn["k_new"])
         new_args = sqlite_args(cal, None)[1:]
+        if scn.get("big"):
+            # history long enough for the row to spill out of SQLite's page cache before the commit
+            g = np.random.default_rng(scn["sim_seed"])
+            big_old = g.normal(size=(3, 1, 110000, 2))
+            big_new = np.concatenate([big_old, g.normal(size=(1, 1, 110000, 2))])
+            old_args = old_args[:17] + (big_old,) + old_args[18:]
+            new_args = new_args[:17] + (big_new,) + new_args[18:]
+            res.stats["probe:sqlite-row-larger-than-page-cache"] += 1
 
         def same(loaded, args):
             return not any(deep_diff(a, b, "f") for a, b in zip(args, loaded))
@@ -270,9 +325,14 @@ class C06(Check):
             cfg["N"] = 12
         cfg["ensemble"] = rng.randint(1, 2)
         backend = "sqlite" if rng.random() < 0.35 else "json"
+        big = i % 8 == 3          # one scenario in eight: SQLite with a row larger than SQLite's page cache (~2 MB)
+        if big:
+            backend = "sqlite"
         scn = {"engine": "diskcrash", "backend": backend, "config": cfg, "ops": [], "k_old": rng.randint(1, 3), "k_new": rng.randint(1, 2),
                "prestate": rng.choice(["none", "same-run", "same-run", "other-run"] if backend == "json" else ["none", "same-run", "same-run"]),
-               "byte_step": 7 if tier == "quick" else 1, "sim_seed": rng.randrange(2 ** 31)}
+               "byte_step": 7 if tier == "quick" else 1, "sim_seed": rng.randrange(2 ** 31), "big": big}
+        if big:
+            scn["prestate"] = "same-run"
         if scn["prestate"] == "other-run":
             oc = copy.deepcopy(cfg)
             oc["ensemble"] = cfg["ensemble"] % 2 + 1
